@@ -495,11 +495,20 @@ func c01FaultCases() []c01Case {
 	files := c01FaultFiles()
 	var out []c01Case
 	n := len(files)
+	// how the `required` flags of the env files are written: booleans, or the strings the schema admits as well
+	spell := 0
+	spellings := [][2]string{{"false", "true"}, {`"false"`, `"true"`}, {`"no"`, `"yes"`}, {`"off"`, `"on"`}, {`"N"`, `"Y"`}, {`"${C01_NOT_SET:-false}"`, `"${C01_NOT_SET:-yes}"`}}
 	mk := func(absent map[int]string) c01Case {
 		cs := c01Case{OnDisk: true, Load: loadCase{Main: []string{"compose.yaml", "override.yaml"}}}
 		var what []string
+		if spell != 0 {
+			what = append(what, fmt.Sprintf("required-spelled-%d", spell))
+		}
 		optionalDir := false
 		for i, f := range files {
+			if f.Name == "compose.yaml" && spell != 0 {
+				f.Content = strings.ReplaceAll(strings.ReplaceAll(f.Content, "required: false", "required: "+spellings[spell][0]), "required: true", "required: "+spellings[spell][1])
+			}
 			switch absent[i] {
 			case "":
 				cs.Load.Files = append(cs.Load.Files, memFile{Name: f.Name, Content: f.Content})
@@ -560,6 +569,12 @@ func c01FaultCases() []c01Case {
 			}
 		}
 		out = append(out, mk(absent))
+		if absent[4] != "" || absent[5] != "" || absent[6] != "" {
+			// an env file with an explicit flag is missing: the same with the flag spelled as a string
+			spell = 1 + mask%(len(spellings)-1)
+			out = append(out, mk(absent))
+			spell = 0
+		}
 	}
 	for i := 0; i < n; i++ {
 		out = append(out, mk(map[int]string{i: "dir"}), mk(map[int]string{i: "dangling"}), mk(map[int]string{i: "linked"}), mk(map[int]string{i: "empty"}))
